@@ -143,6 +143,7 @@ func init() {
 					fv.assume(st, g)
 				}
 				key := fv.memKey(types.Typ[types.Uint8])
+				fv.instFrames(key, slArr(s))
 				m := smt.Select(fv.heapGet(st, key), slArr(s))
 				sum := smt.IntLit(0)
 				for i := 0; i < w; i++ {
@@ -195,6 +196,8 @@ func init() {
 		fv.c.DeclareFun("err_is", []string{smt.Int}, smt.Int)
 		if wrapped.S != "" {
 			fv.assume(st, smt.Eq(smt.App(smt.Int, "err_is", e), smt.App(smt.Int, "err_is", wrapped)))
+		} else {
+			fv.assume(st, smt.Eq(smt.App(smt.Int, "err_is", e), e))
 		}
 		return []smt.Term{e}
 	}
@@ -312,4 +315,63 @@ func (fv *funcVerifier) lockOp(st *State, mu ast.Expr, acquire bool, call *ast.C
 		fv.note("mutex %s acquired: no ownership declared, whole heap havocked (monitor model)", fv.exprStr(mu))
 		fv.havocAll(st)
 	}
+}
+
+func init() {
+	// hashes: md5.New()/sha256.New() carry their digest size; Sum appends it.
+	hashNew := func(size int64) libHandler {
+		return func(fv *funcVerifier, st *State, call *ast.CallExpr, fn *types.Func) []smt.Term {
+			h := fv.freshNonNil(st, "hash", fv.typeOf(call))
+			fv.c.DeclareFun("hash_size", []string{smt.Int}, smt.Int)
+			fv.assume(st, smt.Eq(smt.App(smt.Int, "hash_size", h), smt.IntLit(size)))
+			return []smt.Term{h}
+		}
+	}
+	libModels["crypto/md5.New"] = hashNew(16)
+	libModels["crypto/sha256.New"] = hashNew(32)
+	libModels["crypto/sha1.New"] = hashNew(20)
+	ifaceModels["(hash.Hash).Sum"] = func(fv *funcVerifier, st *State, call *ast.CallExpr, fn *types.Func, recv smt.Term, args []smt.Term) []smt.Term {
+		fv.c.DeclareFun("hash_size", []string{smt.Int}, smt.Int)
+		r := fv.fresh(st, "sum", fv.typeOf(call))
+		sz := smt.App(smt.Int, "hash_size", recv)
+		fv.assume(st, smt.Ge(sz, smt.IntLit(0)))
+		fv.assume(st, smt.And(smt.Eq(slLen(r), smt.Add(slLen(args[0]), sz)), smt.Ne(slArr(r), smt.IntLit(0))))
+		return []smt.Term{r}
+	}
+	ifaceModels["(hash.Hash).Write"] = func(fv *funcVerifier, st *State, call *ast.CallExpr, fn *types.Func, recv smt.Term, args []smt.Term) []smt.Term {
+		return fv.freshResults(st, call, "hwrite")
+	}
+	ifaceModels["(io.Writer).Write"] = ifaceModels["(hash.Hash).Write"]
+	ifaceModels["(hash.Hash).Reset"] = ifaceModels["(hash.Hash).Write"]
+	ifaceModels["(hash.Hash).Size"] = func(fv *funcVerifier, st *State, call *ast.CallExpr, fn *types.Func, recv smt.Term, args []smt.Term) []smt.Term {
+		fv.c.DeclareFun("hash_size", []string{smt.Int}, smt.Int)
+		return []smt.Term{smt.App(smt.Int, "hash_size", recv)}
+	}
+	for _, name := range []string{"md5", "sha256", "sha1"} {
+		name := name
+		size := map[string]int64{"md5": 16, "sha256": 32, "sha1": 20}[name]
+		_ = size
+	}
+	// UDP reads: n bytes were written into the buffer, 0 <= n <= len(buf)
+	readInto := func(fv *funcVerifier, st *State, call *ast.CallExpr, fn *types.Func) []smt.Term {
+		fv.evalCallee(st, call.Fun)
+		buf := fv.evalExpr(st, call.Args[0])
+		fv.mut++
+		fv.havocKeys(st, []string{fv.memKey(types.Typ[types.Uint8])})
+		res := fv.freshResults(st, call, "read")
+		errT := res[len(res)-1]
+		fv.assume(st, smt.Implies(smt.Eq(errT, smt.IntLit(0)), smt.And(smt.Ge(res[0], smt.IntLit(0)), smt.Le(res[0], slLen(buf)))))
+		for i := 1; i < len(res)-1; i++ {
+			if res[i].Sort == smt.Int {
+				fv.assume(st, smt.Implies(smt.Eq(errT, smt.IntLit(0)), smt.Ne(res[i], smt.IntLit(0))))
+			}
+		}
+		return res
+	}
+	libModels["(*net.UDPConn).ReadFromUDP"] = readInto
+	libModels["(*net.UDPConn).ReadFrom"] = readInto
+	libModels["(*net.UDPConn).Read"] = readInto
+	AssumedLib = append(AssumedLib,
+		"crypto/md5.New/sha256.New: Sum(b) returns a non-nil slice of len(b)+digest size (16/32); Write never fails or panics",
+		"(*net.UDPConn).ReadFromUDP: on nil error 0 <= n <= len(buf) and addr != nil; buffer contents arbitrary")
 }
